@@ -1,0 +1,76 @@
+//go:build verif
+
+package symboltable
+
+import (
+	"fmt"
+	"strings"
+)
+
+// VerifDump renders the internal state of an ordered symbol table for the verification harness
+// (/verif): the tree in pre-order, "." for nil, and per node
+//
+//	BST        (key val size L R)
+//	AVL        (key val size height L R)
+//	Red-Black  (key val size R|B L R)
+//
+// It reads the nodes only. Tables of any other type render as "?".
+func VerifDump[K, V any](t SymbolTable[K, V]) string {
+	var b strings.Builder
+
+	switch t := t.(type) {
+	case *bst[K, V]:
+		var walk func(n *bstNode[K, V])
+		walk = func(n *bstNode[K, V]) {
+			if n == nil {
+				b.WriteByte('.')
+				return
+			}
+			fmt.Fprintf(&b, "(%v %v %d ", n.key, n.val, n.size)
+			walk(n.left)
+			b.WriteByte(' ')
+			walk(n.right)
+			b.WriteByte(')')
+		}
+		walk(t.root)
+
+	case *avl[K, V]:
+		var walk func(n *avlNode[K, V])
+		walk = func(n *avlNode[K, V]) {
+			if n == nil {
+				b.WriteByte('.')
+				return
+			}
+			fmt.Fprintf(&b, "(%v %v %d %d ", n.key, n.val, n.size, n.height)
+			walk(n.left)
+			b.WriteByte(' ')
+			walk(n.right)
+			b.WriteByte(')')
+		}
+		walk(t.root)
+
+	case *redBlack[K, V]:
+		var walk func(n *rbNode[K, V])
+		walk = func(n *rbNode[K, V]) {
+			if n == nil {
+				b.WriteByte('.')
+				return
+			}
+			c := "B"
+			if n.color == red {
+				c = "R"
+			}
+			fmt.Fprintf(&b, "(%v %v %d %s ", n.key, n.val, n.size, c)
+			walk(n.left)
+			b.WriteByte(' ')
+			walk(n.right)
+			b.WriteByte(')')
+		}
+		walk(t.root)
+
+	default:
+		return "?"
+	}
+
+	return b.String()
+}
